@@ -1,5 +1,5 @@
 #!/bin/sh
 # Build the Lean project (model, proofs, driver) and the Rust harness. Offline.
 set -e
-cd /verif/lean && lake build
+cd /verif/lean && lake build LoomVerif lvdriver
 cd /verif/harness && CARGO_NET_OFFLINE=true cargo build --release --offline
